@@ -150,6 +150,20 @@ def extract(repo):
     if not m:
         raise ValueError("attributes[i].STEPread call not found")
     inst_passes = m.group(1)
+    # technical-corrigendum handling of redefining attributes: the `)` of a left-out last value is consumed there, and the
+    # look-ahead that reports the remaining attributes advances `i` this many times per round
+    m = re.search(r"else\s*\{\s*if\s*\(\s*c\s*==\s*'\)'\s*\)\s*\{\s*in\s*>>\s*c\s*;\s*\}", ib)
+    if not m or not re.search(r"in\s*>>\s*ws\s*;\s*c\s*=\s*in\.peek\(\)\s*;\s*if\s*\(\s*!useTechCor\s*\)", ib):
+        raise ValueError("redefining attribute: `)` handling changed")
+    lm = re.search(r"else\s+if\s*\(\s*c\s*==\s*'\)'\s*\)\s*\{\s*while\s*\(\s*i\s*<\s*n\s*-\s*1\s*\)\s*\{(.*?)\}\s*return\s+_error\.severity\(\)\s*;\s*\}", ib, re.S)
+    if not lm:
+        raise ValueError("look-ahead for missing trailing values not found")
+    la = lm.group(1)
+    la_step = len(re.findall(r"\bi\+\+\s*;", la))
+    mm_ = re.search(r"if\s*\(\s*!\(\s*attributes\[i\]\.aDesc->AttrType\(\)\s*==\s*AttrType_Redefining\s*\)\s*\)\s*\{.*?_error\.GreaterSeverity\(\s*(SEVERITY_\w+)\s*\)\s*;\s*return", la, re.S)
+    if la_step < 1 or not mm_ or not la.strip().startswith("i++"):
+        raise ValueError("look-ahead loop has an unknown shape")
+    sev_missing_trailing = mm_.group(1)
     m = re.search(r"severe\s*=\s*attributes\[i\]\.Error\(\)\.severity\(\)\s*;\s*if\s*\(\s*severe\s*<=\s*(SEVERITY_\w+)\s*\)\s*\{.*?_error\.GreaterSeverity\(\s*severe\s*\)", ib, re.S)
     if not m:
         raise ValueError("attribute severity merge not found")
@@ -215,6 +229,9 @@ def extract(repo):
     L.append(f"def instAttrStrict : Option Bool := {'none' if inst_passes == 'strict' else '(some ' + attr_default + ')'}")
     L.append("/-- attribute severities at or below this one are merged into the instance's severity -/")
     L.append(f"def sevAttrMergeThreshold : Sev := {_sev(merge_thr)}")
+    L.append("/-- the look-ahead after an early `)` examines every `lookAheadStep`-th remaining attribute (1 = every one) -/")
+    L.append(f"def lookAheadStep : Nat := {la_step}")
+    L.append(f"def sevMissingTrailing : Sev := {_sev(sev_missing_trailing)}")
     L.append("/-- `strict` received by the parts of a complex instance -/")
     L.append(f"def complexPartStrict : Option Bool := {strict_arg(part_args, inst_default)}")
     L.append("/-- does `STEPcomplex::STEPread` merge what the parts other than the head report into its result? -/")
